@@ -99,6 +99,30 @@ Definition bond_walk (fixed : bool) (n : nat) (added : list (nat * nat)) (explic
   | None => if fixed then tree_order n (map norm_bond added) else topology_bonds added
   end.
 
+(* executable certificate that a walk is a proper parent-first walk of the bond graph:
+   parent-ordered, made of bonds only, indices valid, and both ends of every bond hang under the same root *)
+Fixpoint parent_ordered_b (seen : list nat) (l : list (nat * nat)) : bool :=
+  match l with
+  | [] => true
+  | b :: r => negb (Nat.eqb (fst b) (snd b)) && negb (memn (snd b) seen) && parent_ordered_b (fst b :: snd b :: seen) r
+  end.
+Fixpoint root_of (out : list (nat * nat)) (fuel : nat) (x : nat) : nat :=
+  match fuel with
+  | O => x
+  | S f => match find (fun e => Nat.eqb (snd e) x) out with
+           | Some e => root_of out f (fst e)
+           | None => x
+           end
+  end.
+Definition is_bond (bonds : list (nat * nat)) (e : nat * nat) : bool :=
+  existsb (fun b => (Nat.eqb (fst b) (fst e) && Nat.eqb (snd b) (snd e)) ||
+                    (Nat.eqb (fst b) (snd e) && Nat.eqb (snd b) (fst e))) bonds.
+Definition walk_ok (n : nat) (bonds out : list (nat * nat)) : bool :=
+  parent_ordered_b [] out &&
+  forallb (is_bond bonds) out &&
+  forallb (fun b => Nat.ltb (fst b) n && Nat.ltb (snd b) n) bonds &&
+  forallb (fun b => Nat.eqb (root_of out n (fst b)) (root_of out n (snd b))) bonds.
+
 Definition make_whole_cur (B : box) (added : list (nat * nat)) (xyz : list vec) : list atom_st :=
   make_whole B (topology_bonds added) (init_state xyz).
 Definition make_whole_fix (B : box) (added : list (nat * nat)) (xyz : list vec) : list atom_st :=
